@@ -145,9 +145,18 @@ class EngineBase:
     def field_write(self, st: State, ref, cls, fname, val: V) -> State:
         fd = self.ct.field(cls, fname)
         if fd is None:
-            raise EngineError(f"class {cls} has no declared field {fname!r} (add it to klass(...))")
+            # store to an attribute the schema does not declare: declare it with the stored value's type
+            self.assumed_calls[f"unmodelled attribute {cls}.{fname} (declared on first store)"] = 1
+            self.ct.classes[cls].fields[fname] = val.t
+            fd = (cls, val.t)
         dcls, t = fd
-        val = coerce(val, t)
+        try:
+            val = coerce(val, t)
+        except EngineError:
+            if isinstance(t, TOpaque):
+                val = fresh(t, "opq")     # an opaque field forgets what is stored into it
+            else:
+                raise
         arrs = self.heap_arrays(st, dcls, fname, t)
         s2 = st.fork()
         s2.heap[(dcls, fname)] = [z3.Store(a, ref, x) for a, x in zip(arrs, val.zs)]
